@@ -12,6 +12,7 @@ pub struct Args {
     pub nshards: usize,
     pub out: String,
     pub resume_after: Option<u64>,
+    pub only: Option<u64>,
     pub progress: Option<String>,
     pub seed: u64,
     pub replay: Option<String>,
@@ -27,6 +28,7 @@ impl Args {
             nshards: 1,
             out: String::new(),
             resume_after: None,
+            only: None,
             progress: None,
             seed: 0,
             replay: None,
@@ -44,6 +46,7 @@ impl Args {
                 }
                 "--out" => a.out = it.next().unwrap(),
                 "--resume-after" => a.resume_after = Some(it.next().unwrap().parse().unwrap()),
+                "--only" => a.only = Some(it.next().unwrap().parse().unwrap()),
                 "--progress" => a.progress = Some(it.next().unwrap()),
                 "--seed" => a.seed = it.next().unwrap().parse().unwrap_or(0),
                 "--replay" => a.replay = Some(it.next().unwrap()),
@@ -77,6 +80,7 @@ pub struct Collector {
     pub shard: usize,
     pub nshards: usize,
     pub resume_after: Option<u64>,
+    pub only: Option<u64>,
     /// global case counter (every shard walks the whole enumeration)
     pub index: u64,
     pub evaluations: u64,
@@ -122,6 +126,7 @@ impl Collector {
             shard: a.shard,
             nshards: a.nshards,
             resume_after: a.resume_after,
+            only: a.only,
             index: 0,
             evaluations: 0,
             nontrivial: 0,
@@ -152,7 +157,11 @@ impl Collector {
             }
             return false;
         }
-        if (i as usize) % self.nshards != self.shard {
+        if let Some(o) = self.only {
+            if i != o {
+                return false;
+            }
+        } else if (i as usize) % self.nshards != self.shard {
             return false;
         }
         if let Some(r) = self.resume_after {
